@@ -2,3 +2,5 @@
 import Model.HCMSpec
 import Proofs.C05Core
 import Proofs.C05Mirror
+import Proofs.C05Code
+import Proofs.C04Code
